@@ -125,6 +125,8 @@ def run(ctx: Ctx) -> None:
     r.floor(54)
 
     gen_rule(ctx, ge, pp_)
+    from .c05 import split_rule
+    split_rule(ctx, "R04.split")
     once_rule(ctx, pp_)
     addr_rule(ctx)
     lex_rule(ctx, ge)
